@@ -97,6 +97,12 @@ fn main() {
                 }
                 match j["driver"].as_str().unwrap_or("default") {
                     "random" => sim.run_random(&mut rng, &quanta, max_steps),
+                    "pct" => {
+                        let d = j["pct_changes"].as_u64().unwrap_or(2) as usize;
+                        sim.run_pct(&mut rng, &quanta, max_steps, d);
+                        // whatever is left (starved components) is finished fairly
+                        sim.run_default(quanta[0], max_steps);
+                    }
                     "replay" => {
                         if let Some(J::Array(s)) = j.get("schedule") {
                             for st in s {
